@@ -28,7 +28,7 @@ META = {
     "assumptions": [
         "uproot is replaced by an exact in-memory key -> (values, edges) store (duplicate-key detection as in the real object; an opened handle keeps seeing the content it was opened on); number <-> text is an exact round trip (Python guarantees float(str(x)) == x for floats), symbolic numbers travel as opaque tokens inside otherwise real ElementTree XML; writexml's np.divide(where=b != 0) / zeros_like / array are modelled element-wise",
         "concrete replays use the real uproot and real files",
-        "yields, uncertainties, normsys factors, lumi central value and sigma > 0; histosys data, normfactor init/bounds free reals",
+        "yields, uncertainties, normsys factors, lumi central value and sigma > 0; histosys data, normfactor init/bounds free reals; one workspace has a sample yield of free sign (non-zero: a zero yield with non-zero MC uncertainty is not expressible in the format's relative errors)",
     ],
     "bounds": {
         "quick": "5 exportable workspaces (1-2 channels, 1-3 samples, 1-3 bins; histosys, normsys, normfactor with custom init/bounds, shapesys, staterror, shapefactor, lumi with central value != 1; fixed parameters; 1-2 measurements); export -> import, export -> import -> export -> import, two directories",
@@ -53,6 +53,10 @@ def _workspaces():
     Wk.append(("lumi-fixed", [channel("B", sample("s", 2, normfactor(), lumi()), sample("b", 2, lumi(), staterror("staterror_B", 2))),
                               channel("A", sample("b", 1, lumi(), histosys("h", 1)))],
                [dict(lcfg, fixed=True)], "mu"))
+    # a sample whose yield may be negative or zero in one bin (interference / negative-weight templates)
+    neg = sample("interf", 2, staterror("staterror_SR", 2))
+    neg["data"] = ["$x", "$n"]
+    Wk.append(("signed-yield", [channel("SR", sample("sig", 2, normfactor()), sample("bkg", 2, staterror("staterror_SR", 2), shapesys("ubkg", 2)), neg)], [], "mu"))
     return Wk
 
 
@@ -70,6 +74,13 @@ def items(tier, seed):
 def _build(env, idx, prefix=""):
     tag, chans, pars, poi = _workspaces()[idx]
     spec = shapes.realize(env, {"channels": chans, "parameters": pars}, prefix=prefix)
+    if tag == "signed-yield":
+        # negative yields are expressible; a zero yield with a non-zero MC uncertainty is not (the format stores
+        # the uncertainty relative to the yield), so the free-sign yield is assumed non-zero
+        for c in spec["channels"]:
+            for smp in c["samples"]:
+                if smp["name"] == "interf":
+                    env.assume(env.num(smp["data"][0]) != 0)
     for p in spec.get("parameters", []):
         if p["name"] == "lumi":
             p["inits"] = [p["auxdata"][0]]      # HistFactory XML has one Lumi attribute for both
@@ -89,7 +100,7 @@ def _export_import(env, ws, d, prefix="res"):
     return R.parse(str(topfile), str(Path(d)))
 
 
-def _compare(env, label, w0, w1, key):
+def _compare(env, label, w0, w1, key, models=True):
     """w1 (re-imported) against w0 (original): structure, then likelihood under the staterror name map"""
     N = env.num
     c0 = {c["name"]: c for c in w0["channels"]}
@@ -128,8 +139,13 @@ def _compare(env, label, w0, w1, key):
         env.eq_all(f"{label}:observation[{cn}]", [N(x) for x in o1.get(cn, [])], [N(x) for x in o0[cn]], key=key + ":observations")
     m0, m1 = w0["measurements"], w1["measurements"]
     env.holds(f"{label}:measurements", [m["name"] for m in m0] == [m["name"] for m in m1] and [m["config"]["poi"] for m in m0] == [m["config"]["poi"] for m in m1], key=key + ":poi")
+    if not models:
+        return      # signed yields: the model-level comparison would fork on every sign; the data comparison above decides
     # models: suggestions and likelihood
-    M0 = pyhf.Workspace(w0).model()
+    try:
+        M0 = pyhf.Workspace(w0).model()
+    except pyhf.exceptions.InvalidModifier:
+        return
     M1 = pyhf.Workspace(w1).model()
     g0, g1 = M0.config, M1.config
     env.holds(f"{label}:parameters", list(g0.par_order) == list(g1.par_order) and g0.npars == g1.npars and list(g0.auxdata_order) == list(g1.auxdata_order), key=key + ":parameters")
@@ -171,7 +187,7 @@ def harness_for(item):
             back = _export_import(env, ws, d)
         from .c12 import _same_structure
         env.holds("input-untouched", _same_structure(before, ws), key="no-mutation")
-        _compare(env, "rt", ws, back, "roundtrip")
+        _compare(env, "rt", ws, back, "roundtrip", models=(tag != "signed-yield"))
 
     def cycles(env):
         env.install_backend()
